@@ -221,7 +221,7 @@ fn c02_backtrack_loop_records() {
 
 // (thorough only: after the loop decision the instruction pointer is symbolic for CBMC, every further
 // interpreter iteration explores all arms)
-// @verif props=C01,C02 tier=thorough timeout=3600 unwind=8 bound="EnterLoop{min<=max<=2^64-1} followed by JustFail body and Goal exit; stale loop data arbitrary" funcs="MatchAttempter::try_at_pos(EnterLoop arm),run_loop"
+// @verif props=C01,C02 tier=extended timeout=3600 unwind=8 bound="EnterLoop{min<=max<=2^64-1} followed by JustFail body and Goal exit; stale loop data arbitrary" funcs="MatchAttempter::try_at_pos(EnterLoop arm),run_loop"
 #[kani::proof]
 #[kani::unwind(8)]
 fn c01_enter_loop_resets_iters() {
